@@ -423,6 +423,15 @@ def run_algebra(case, out):
     inputs = list(masks)
     if case["via_file"]:
         # first mask passed as a file path (float32 on disk), the documented mixed usage
+        if len(masks) % 2 == 0 or shape[0] % 2:
+            # the file name has a history: another mask of the same box was stored under it and used as an operand, then the
+            # file was overwritten with the mask of this case (same size on disk)
+            out.label("via_file:name_held_another_mask_before")
+            cryomap.write((1.0 - np.clip(masks[0].astype(np.float32), 0, 1)).astype(np.float32), "m0.mrc")
+            try:
+                getattr(cryomask, op)(["m0.mrc"] + [m_.copy() for m_ in masks[1:]])
+            except Exception:
+                pass
         cryomap.write(masks[0].astype(np.float32), "m0.mrc")
         inputs[0] = "m0.mrc"
         out.label("via_file")
